@@ -28,7 +28,8 @@ RULE = (
     "non-strict merge is identical across permutations and constructors; sorted() of the MosFile "
     "objects - of one running order, and of three - is ascending by integer message ID.  Non-trivial = >= 3 messages, IDs of >= 2 digit "
     "counts, permutation != sorted order."
-    ' Also: file names differing only in letter case, the same basename in different directories, whole listing pages of non-MOS keys, envelopes with the messageID after the body and a nested messageID before it, now and then more than 16 messages.')
+    ' Also: file names differing only in letter case, the same basename in different directories, whole listing pages of non-MOS keys, envelopes with the messageID after the body and a nested messageID before it, now and then more than 16 messages.'
+    ' Round 11: ncsID headers differ from document to document (present with different values, absent).')
 ASSUMPTIONS = ['message IDs are distinct integers']
 MANDATORY = ['more-than-16-messages', 'padded-message-id', 'constructor:strings', 'constructor:files', 'constructor:s3', 'lexical!=numeric',
              'permutation!=sorted', 'sorted(MosFile)']
